@@ -10,8 +10,8 @@ import (
 
 // HistoricalSummary is a summary of HistoricalBatch and was introduced in Capella
 type HistoricalSummary struct {
-	BlockSummaryRoot common.Root
-	StateSummaryRoot common.Root
+	BlockSummaryRoot common.Root `json:"block_summary_root" yaml:"block_summary_root"`
+	StateSummaryRoot common.Root `json:"state_summary_root" yaml:"state_summary_root"`
 }
 
 func (hs *HistoricalSummary) View() *ContainerView {
